@@ -292,6 +292,22 @@ def pipeline_dataset(chk, r, S, work, d, reqs, expect):
         chk.count(f"pipeline:{prog}-runs")
         chk.count(f"pipeline:options={mode or 'plain'}" + (f"({f_[0]})" if f_ else ""))
         check_called(chk, prog, " ".join(opts), arecs, out2, code, err, key0, f_, reqs if prog == "call" else None, expect)
+    # ---- several cores (a number that does not divide the record count where possible): still one output record per input record
+    n_cores = next((k for k in (3, 2, 4, 5) if len(arecs) % k), 3)
+    outc, code, err = S.run_program(ds.call_argv("call-exact", agz, "--cores", str(n_cores)))
+    chk.count("pipeline:call-exact-cores-runs")
+    chk.case({**key0, "what": "cores", "cores": n_cores, "records": len(arecs)}, len(arecs) % n_cores != 0)
+    if code != 0:
+        chk.violation("call-exact --cores aborts on records the single-core run handles", {**key0, "cores": n_cores, "error": err[:400]},
+                      "C12/pipeline/cores-abort")
+    else:
+        _, crecs = S.parse_vcf_text(outc)
+        got_ids = sorted((x["CHROM"], x["POS"], x["ID"], x["REF"], ",".join(x["ALT"] or [])) for x in crecs)
+        want_ids = sorted((x["CHROM"], x["POS"], x["ID"], x["REF"], ",".join(x["ALT"] or [])) for x in arecs)
+        if got_ids != want_ids:
+            chk.violation("call-exact --cores: the output does not hold exactly one record per input record (CHROM, POS, ID, REF, ALT unchanged)",
+                          {**key0, "cores": n_cores, "missing": [list(x[:3]) for x in want_ids if x not in got_ids][:6],
+                           "unexpected": [list(x[:3]) for x in got_ids if x not in want_ids][:6]}, "C12/pipeline/cores-records")
     # ---- the same data through `assemble --region` (one window), then call-exact
     c, s_, e, n = r.choice(targets)
     argv = ds.assemble_argv(*MCMC, *extra, "--report", "AFP")
